@@ -112,9 +112,19 @@ func (w *World) forwardersOf(f *types.Func) []*types.Func {
 // loop of the caller (Write) — or, when the function ends the mode through EndSnapshotModeRequeue, the Flush/Sync that
 // pushes the writer's queue out.
 func shadowToLogPred(w *World, fn *ssa.Function) func(ssa.Instruction) bool {
+	return shadowToLogPredIn(w, []*ssa.Function{fn})
+}
+
+func shadowToLogPredIn(w *World, fns []*ssa.Function) func(ssa.Instruction) bool {
 	write := w.FuncObj("pkg/persistence", "LazyAOFWriter.Write")
 	rq := w.FuncObj("pkg/persistence", "LazyAOFWriter.EndSnapshotModeRequeue")
-	if rq != nil && len(findInstrs(fn, callsTo(append([]*types.Func{rq}, w.forwardersOf(rq)...)...))) > 0 {
+	requeues := false
+	for _, fn := range fns {
+		if rq != nil && len(findInstrs(fn, callsTo(append([]*types.Func{rq}, w.forwardersOf(rq)...)...))) > 0 {
+			requeues = true
+		}
+	}
+	if requeues {
 		return callsTo(w.FuncObj("pkg/persistence", "LazyAOFWriter.Flush"), w.FuncObj("pkg/persistence", "LazyAOFWriter.Sync"))
 	}
 	return callsTo(write)
@@ -157,15 +167,29 @@ func (w *World) funcsByRole(rel string, pred func(ssa.Instruction) bool) []*Func
 }
 
 func checkChain(w *World, r *Report, rule, where string, fn *ssa.Function, pos string, steps []step) {
+	checkChainMay(w, r, rule, where, fn, pos, steps, nil)
+}
+
+// checkChainMay: may[name] is an optional, weaker form of a step's predicate — "the step may happen here" (a call of a
+// helper that contains it) —, used where the step is the LATER one of a pair and for its presence.
+func checkChainMay(w *World, r *Report, rule, where string, fn *ssa.Function, pos string, steps []step, may map[string]func(ssa.Instruction) bool) {
 	for _, s := range steps {
-		if len(findInstrs(fn, s.pred)) == 0 {
+		p := s.pred
+		if may[s.name] != nil {
+			p = may[s.name]
+		}
+		if len(findInstrs(fn, p)) == 0 {
 			r.Bad(rule, where+":has:"+s.name, pos, "protocol step `"+s.name+"` is missing from "+where)
 			return
 		}
 	}
 	for i := 0; i+1 < len(steps); i++ {
 		a, b := steps[i], steps[i+1]
-		ok, wit := precedesWithSuccess(fn, a.pred, b.pred)
+		bp := b.pred
+		if may[b.name] != nil {
+			bp = may[b.name]
+		}
+		ok, wit := precedesWithSuccess(fn, a.pred, bp)
 		r.Cond(ok, rule, fmt.Sprintf("%s:%s<%s", where, a.name, b.name), pos,
 			a.name+" (succeeded) precedes "+b.name+" on every path",
 			fmt.Sprintf("in %s a path reaches `%s` without a preceding successful `%s`", where, b.name, a.name), w.witness(wit)...)
@@ -227,8 +251,15 @@ func ruleORD1(w *World, r *Report) {
 				}
 			}
 		}
+		// … or several phases became helpers of their own, called in sequence: a call of a helper stands for the steps it
+		// always performs (leaving over a failure edge aside: the helper reports that, and the caller's test of the result
+		// is the "succeeded" of the chain)
+		helpers := w.extractedHelpers(fn)
+		if inner != nil {
+			helpers = append(helpers, inner)
+		}
 		lift := func(p func(ssa.Instruction) bool) func(ssa.Instruction) bool {
-			if inner == nil {
+			if len(helpers) == 0 {
 				return p
 			}
 			return func(in ssa.Instruction) bool {
@@ -236,31 +267,66 @@ func ruleORD1(w *World, r *Report) {
 					return true
 				}
 				c, ok := in.(*ssa.Call)
-				return ok && c.Call.StaticCallee() == inner && alwaysPerforms(inner, p)
+				if !ok || c.Call.StaticCallee() == nil {
+					return false
+				}
+				for _, h := range helpers {
+					if c.Call.StaticCallee() == h && alwaysPerforms(h, p) {
+						return true
+					}
+				}
+				return false
+			}
+		}
+		liftMay := func(p func(ssa.Instruction) bool) func(ssa.Instruction) bool {
+			if len(helpers) == 0 {
+				return nil
+			}
+			return func(in ssa.Instruction) bool {
+				if p(in) {
+					return true
+				}
+				c, ok := in.(*ssa.Call)
+				if !ok || c.Call.StaticCallee() == nil {
+					return false
+				}
+				for _, h := range helpers {
+					if c.Call.StaticCallee() == h && len(findInstrs(h, p)) > 0 {
+						return true
+					}
+				}
+				return false
 			}
 		}
 		where := shortName(fi.Obj)
 		pos := w.Pos(fi.Decl.Pos())
+		may := map[string]func(ssa.Instruction) bool{}
+		mk := func(name string, p func(ssa.Instruction) bool) step {
+			may[name] = liftMay(p)
+			return step{name, lift(p)}
+		}
 		steps := []step{
 			{"BeginSnapshotMode", begin},
-			{"DB.Snapshot", lift(methodPred(w, "pkg/core", "DB.Snapshot"))},
-			{"Rename(tmp,snapPath)", lift(renameOntoSnap)},
-			{"AOF.Truncate", lift(methodPred(w, "pkg/persistence", "LazyAOFWriter.Truncate"))},
-			{"EndSnapshotMode", endSnapshotPred(w)},
-			{"AOF.Write(shadow)", shadowToLogPred(w, fn)},
+			mk("DB.Snapshot", methodPred(w, "pkg/core", "DB.Snapshot")),
+			mk("Rename(tmp,snapPath)", renameOntoSnap),
+			mk("AOF.Truncate", methodPred(w, "pkg/persistence", "LazyAOFWriter.Truncate")),
+			mk("EndSnapshotMode", endSnapshotPred(w)),
+			mk("AOF.Write(shadow)", shadowToLogPredIn(w, append([]*ssa.Function{fn}, helpers...))),
 		}
-		checkChain(w, r, "ORD-1", where, fn, pos, steps)
-		if inner != nil {
+		checkChainMay(w, r, "ORD-1", where, fn, pos, steps, may)
+		for _, h := range helpers {
 			var sub []step
-			for _, st := range []step{{"DB.Snapshot", methodPred(w, "pkg/core", "DB.Snapshot")}, {"Rename(tmp,snapPath)", renameOntoSnap}, {"AOF.Truncate", methodPred(w, "pkg/persistence", "LazyAOFWriter.Truncate")}} {
-				if len(findInstrs(inner, st.pred)) > 0 {
+			for _, st := range []step{{"DB.Snapshot", methodPred(w, "pkg/core", "DB.Snapshot")}, {"Rename(tmp,snapPath)", renameOntoSnap}, {"AOF.Truncate", methodPred(w, "pkg/persistence", "LazyAOFWriter.Truncate")}, {"EndSnapshotMode", endSnapshotPred(w)}} {
+				if len(findInstrs(h, st.pred)) > 0 {
 					sub = append(sub, st)
 				}
 			}
 			if len(sub) > 1 {
-				checkChain(w, r, "ORD-1", where, inner, pos, sub)
+				checkChain(w, r, "ORD-1", where, h, pos, sub)
 			}
-			fn = inner // the file-level clauses below are about the function that handles the files
+			if len(findInstrs(h, renameOntoSnap)) > 0 {
+				fn = h // the file-level clauses below are about the function that handles the files
+			}
 		}
 		// the file handed to DB.Snapshot must not be opened on snapPath itself
 		for _, in := range findInstrs(fn, func(in ssa.Instruction) bool {
@@ -643,6 +709,25 @@ func ruleORD4(w *World, r *Report) {
 				return false
 			}
 			ok, wit := mustFollow(fn, bi, endsOrDefer, failureEdges(fn, bi.(*ssa.Call)))
+			if !ok {
+				// the clean-up was registered before snapshot mode was entered (one deferred function for every way out,
+				// which ends the mode when this call holds it): it runs at every exit after the Begin as well
+				for _, d := range findInstrs(fn, func(in ssa.Instruction) bool { _, isD := in.(*ssa.Defer); return isD && endsOrDefer(in) }) {
+					db, bb := d.Block(), bi.Block()
+					if db == bb {
+						for _, in := range bb.Instrs {
+							if in == d {
+								ok = true
+							}
+							if in == bi {
+								break
+							}
+						}
+					} else if db.Dominates(bb) {
+						ok = true
+					}
+				}
+			}
 			r.Cond(ok, "ORD-4", "Begin-then-End@"+shortName(fi.Obj), w.Pos(bi.Pos()), "EndSnapshotMode on every exit after BeginSnapshotMode", "a path returns after BeginSnapshotMode without EndSnapshotMode: the writer stays in snapshot mode and every later write is buffered in memory only", w.witness(wit)...)
 		}
 	}
